@@ -78,3 +78,21 @@ func HKDFExpand(h func() hash.Hash, prk, info []byte, l int) []byte {
 	}
 	return s[:l]
 }
+
+// HKDFBlocks returns T(1) || ... || T(n) of RFC 5869 §2.3 (1 <= n <= 255); HKDFStream is
+// HKDFBlocks(..., 255). For long info values where the whole stream is too expensive.
+func HKDFBlocks(h func() hash.Hash, prk, info []byte, n int) []byte {
+	if n < 1 || n > 255 {
+		panic("kdfref: HKDF block count out of range")
+	}
+	var out, prev []byte
+	for i := 1; i <= n; i++ {
+		m := hmac.New(h, prk)
+		m.Write(prev)
+		m.Write(info)
+		m.Write([]byte{byte(i)})
+		prev = m.Sum(nil)
+		out = append(out, prev...)
+	}
+	return out
+}
